@@ -149,3 +149,16 @@ Fixpoint tlog (t : nat) (l : list entry) : list (nat * nat * option bytes) :=
 (* request-list instance used by the driver *)
 Definition init_reqs (cur0 : nat) (reqs : list (list (nat * nat))) : state (list (option bytes)) :=
   init cur0 (map (fun rs => prog_of_reqs rs []) reqs).
+
+(* entry points of the OCaml driver (extract/m_conc.ml) *)
+Definition conc_state : Type := state (list (option bytes)).
+Definition conc_init (cur0 : nat) (reqs : list (list (nat * nat))) : conc_state := init_reqs cur0 reqs.
+Definition conc_step (use_lock : bool) (content : bytes) (s : conc_state) (t : nat) : conc_state :=
+  step use_lock content s t.
+Definition conc_pc (s : conc_state) (t : nat) : option pcst := option_map pc (nth_error (threads s) t).
+Definition conc_lock (s : conc_state) : option nat := lock s.
+Definition conc_result (s : conc_state) (t : nat) : option (list (option bytes)) :=
+  match nth_error (threads s) t with
+  | Some th => match code th with Ret l => Some l | Rd _ _ _ => None end
+  | None => None
+  end.
